@@ -1088,8 +1088,9 @@ impl<'de, R: Read<'de>> Parser<R> {
         loop {
             let digit = match self.peek_or_null()? {
                 c @ b'0'..=b'9' => c - b'0',
-                c @ b'a'..=b'f' => 10 + (c - b'a'),
-                c @ b'A'..=b'F' => 10 + (c - b'A'),
+                // In decimal literals `e` and `E` introduce the exponent
+                c @ b'a'..=b'f' if radix > 10 => 10 + (c - b'a'),
+                c @ b'A'..=b'F' if radix > 10 => 10 + (c - b'A'),
                 _ => return self.parse_num_tail(radix, pos, res),
             };
             if digit >= radix {
@@ -1120,8 +1121,8 @@ impl<'de, R: Read<'de>> Parser<R> {
         loop {
             let digit = match self.peek_or_null()? {
                 c @ b'0'..=b'9' => c - b'0',
-                c @ b'a'..=b'f' if radix >= 10 => 10 + (c - b'a'),
-                c @ b'A'..=b'F' if radix >= 10 => 10 + (c - b'A'),
+                c @ b'a'..=b'f' if radix > 10 => 10 + (c - b'a'),
+                c @ b'A'..=b'F' if radix > 10 => 10 + (c - b'A'),
                 b'.' => {
                     if radix != 10 {
                         return Err(self.peek_error(ErrorCode::InvalidNumber));
